@@ -303,7 +303,7 @@ WINDOWS = {  # (time_begin, time_end) relative to the horizons above (initial st
 class Drawn(Contract):
     prop = "C19"
     target = "commonroad.visualization.mp_renderer.MPRenderer.draw_scenario"
-    budget_s = 300
+    budget_s = 900
     unroll = {"commonroad.common.util.make_valid_orientation": 3}
     summaries = ("make_valid_orientation",)
 
@@ -389,7 +389,7 @@ class LaneletsDrawn(Contract):
     prop = "C19"
     target = "commonroad.visualization.mp_renderer.MPRenderer.draw_lanelet_network"
     summaries = ("c19_colormap",)
-    budget_s = 200
+    budget_s = 900  # 3-6 s on an idle machine
 
     def __init__(self, name):
         self.name = name
@@ -400,7 +400,11 @@ class LaneletsDrawn(Contract):
         net = F.new(LaneletNetwork)
         lanes = []
         for k, lid in enumerate((11, 12, 13)):
-            left, right = poly2(F, "L%dl" % lid), poly2(F, "L%dr" % lid)
+            if lid == 12:  # one lanelet with symbolic vertices; the other two concrete (keeps the number of paths small)
+                left, right = poly2(F, "L%dl" % lid), poly2(F, "L%dr" % lid)
+            else:
+                y = 5.0 * k
+                left, right = F.array([[0.0, y + 3.0], [20.0, y + 3.5]]), F.array([[0.0, y], [20.0, y + 0.5]])
             center = 0.5 * (left + right) if F.native else F.interp.binop(__import__("ast").Mult, 0.5, F.interp.binop(__import__("ast").Add, left, right))
             la = F.new(Lanelet, left, center, right, lid)
             F.method(net, "add_lanelet", la)
